@@ -21,6 +21,12 @@ package environment
 //@   ghostvar rnErr bool = false
 //@   ghostvar rnStored bool = false
 //@   ghostvar isStart bool = e.Event == "START_ACTIVITY"
+// C08 (hooks fire at their declared moment): the moment handed to the hook handlers is this callback's own
+//@   ghostvar trg string = ""
+//@   ghostvar trgSet bool = false
+//@   [C08] on aftercall fmt.Sprintf when arg0 == "before_%s" && !trgSet : assert len(arg1) == 1 && arg1[0] == iface(e.Event) ; trg = result ; trgSet = true
+//@   [C08] on call (*Environment).handleHooksWithNegativeWeights : assert trgSet && arg2 == trg
+//@   [C08] on call (*Environment).handleHooksWithPositiveWeights : assert trgSet && arg2 == trg
 //@   on call (*Environment).handleHooksWithNegativeWeights : assert phase == 0 ; phase = 1
 //@   on aftercall (*Environment).handleHooksWithNegativeWeights : negErr = (result != nil)
 //@   on call (*fsm.Event).Cancel : cancelled = true
@@ -35,6 +41,26 @@ package environment
 //@   [C10] on aftercall .Get : readKey = arg0 ; readEmpty = result1 && result0 == ""
 //@   [C10] on call .SetRuntimeVar when arg0 == "run_end_time_ms" : assert arg1 == "" || (readKey == "run_end_time_ms" && readEmpty)
 //@   on call (*Environment).handleHooksWithPositiveWeights : assert phase == 1 && !cancelled && !negErr && !rnErr ; phase = 2
+// C09: a critical hook failing at a non-negative weight of before_<event> cancels the transition just as one at a negative
+// weight does (weight +0 is the default); C07 / C10: the number that becomes the current run number is the one the
+// counter handed out, and it is not 0
+//@   ghostvar posErr bool = false
+//@   ghostvar rn uint32 = 0
+//@   on aftercall (*Environment).handleHooksWithPositiveWeights : posErr = (result != nil)
+//@   on aftercall .NewRunNumber : rn = result0
+//@   [C07 C10] on store environment.Environment.currentRunNumber : assert value == rn
+//@   ensures posErr ==> cancelled
+// C10 (values of a previous run are never visible in the next): together with the run number the start time is set and
+// the three later timestamps are reset, all before the non-negative hooks run
+//@   ghostvar stSet bool = false
+//@   ghostvar rsSC bool = false
+//@   ghostvar rsE bool = false
+//@   ghostvar rsEC bool = false
+//@   [C10] on call .SetRuntimeVar when arg0 == "run_start_time_ms" : stSet = true
+//@   [C10] on call .SetRuntimeVar when arg0 == "run_start_completion_time_ms" && arg1 == "" : rsSC = true
+//@   [C10] on call .SetRuntimeVar when arg0 == "run_end_time_ms" && arg1 == "" : rsE = true
+//@   [C10] on call .SetRuntimeVar when arg0 == "run_end_completion_time_ms" && arg1 == "" : rsEC = true
+//@   [C10] ensures rnStored ==> stSet && rsSC && rsE && rsEC
 //@   ensures phase == 2 || cancelled
 //@   ensures negErr ==> cancelled && phase == 1
 //@   ensures rnErr ==> cancelled && phase == 1 && !rnStored
@@ -49,6 +75,12 @@ package environment
 //@   ghostvar cancelled bool = false
 //@   ghostvar negErr bool = false
 //@   ghostvar posErr bool = false
+// C08 (hooks fire at their declared moment): the moment handed to the hook handlers is this callback's own
+//@   ghostvar trg string = ""
+//@   ghostvar trgSet bool = false
+//@   [C08] on aftercall fmt.Sprintf when arg0 == "leave_%s" && !trgSet : assert len(arg1) == 1 && arg1[0] == iface(e.Src) ; trg = result ; trgSet = true
+//@   [C08] on call (*Environment).handleHooksWithNegativeWeights : assert trgSet && arg2 == trg
+//@   [C08] on call (*Environment).handleHooksWithPositiveWeights : assert trgSet && arg2 == trg
 //@   on call (*Environment).handleHooksWithNegativeWeights : assert phase == 0 ; phase = 1
 //@   on aftercall (*Environment).handleHooksWithNegativeWeights : negErr = (result != nil)
 //@   on call (*fsm.Event).Cancel : cancelled = true
@@ -71,6 +103,12 @@ package environment
 //@   ghostvar cancelled bool = false
 //@   ghostvar negErr bool = false
 //@   ghostvar posErr bool = false
+// C08 (hooks fire at their declared moment): the moment handed to the hook handlers is this callback's own
+//@   ghostvar trg string = ""
+//@   ghostvar trgSet bool = false
+//@   [C08] on aftercall fmt.Sprintf when arg0 == "enter_%s" && !trgSet : assert len(arg1) == 1 && arg1[0] == iface(e.Dst) ; trg = result ; trgSet = true
+//@   [C08] on call (*Environment).handleHooksWithNegativeWeights : assert trgSet && arg2 == trg
+//@   [C08] on call (*Environment).handleHooksWithPositiveWeights : assert trgSet && arg2 == trg
 //@   on call (*Environment).handleHooksWithNegativeWeights : assert phase == 0 ; phase = 1
 //@   on aftercall (*Environment).handleHooksWithNegativeWeights : negErr = (result != nil)
 //@   on call .SetRuntimeVar : assert phase == 1
@@ -86,6 +124,12 @@ package environment
 //@   ghostvar phase int = 0
 //@   ghostvar isStop bool = e.Event == "STOP_ACTIVITY"
 //@   ghostvar rnDropped bool = false
+// C08 (hooks fire at their declared moment): the moment handed to the hook handlers is this callback's own
+//@   ghostvar trg string = ""
+//@   ghostvar trgSet bool = false
+//@   [C08] on aftercall fmt.Sprintf when arg0 == "after_%s" && !trgSet : assert len(arg1) == 1 && arg1[0] == iface(e.Event) ; trg = result ; trgSet = true
+//@   [C08] on call (*Environment).handleHooksWithNegativeWeights : assert trgSet && arg2 == trg
+//@   [C08] on call (*Environment).handleHooksWithPositiveWeights : assert trgSet && arg2 == trg
 //@   on call (*Environment).handleHooksWithNegativeWeights : assert phase == 0 ; phase = 1
 //@   on call .SetRuntimeVar : assert phase == 1
 // C10: the end-completion time is written - when STOP_ACTIVITY completes as well as on GO_ERROR - only after it was read and
@@ -139,9 +183,30 @@ package environment
 //@   ghostvar lastCrit bool = false
 //@   [C08 C09] on call (callable.Calls).StartAll : assert awaitedAt <= #i && tasksAt <= #i
 //@   [C08 C09] on call (callable.Calls).AwaitAll : assert tasksAt <= #i ; awaitedAt = #i + 1
+// ... and of the right things: what is started at a weight are the calls among the hooks of THIS trigger at THIS weight,
+// what is awaited (and afterwards forgotten) are the calls pending for THIS trigger at THIS weight
+//@   ghostvar fc callable.Calls = nil
+//@   [C08] on call (callable.Hooks).FilterCalls : assert arg0 == hooksMapForTrigger[weight]
+//@   [C08] on aftercall (callable.Hooks).FilterCalls : fc = result
+//@   [C08] on call (callable.Calls).StartAll : assert arg0 == fc
+//@   [C08] on call (callable.Calls).AwaitAll : assert arg0 == env.callsPendingAwait[trigger][weight]
+//@   [C08] on call delete : assert arg0 == env.callsPendingAwait[trigger] && arg1 == weight
 //@   [C08 C09] on call (*Environment).runTasksAsHooks : assert tasksAt <= #i ; tasksAt = #i + 1
 //@   [C08 C09] on aftercall .GetTraits : lastCrit = result.Critical
-//@   [C08 C09] on call append when argtype0 == "[]error" : assert lastCrit
+//@   [C08 C09] on call append when argtype0 == "[]error" : assert lastCrit ; nCrit = nCrit + 1
+// C09: the caller gets an error exactly if a critical hook failed (a failure that is collected is also reported)
+//@   ghostvar nCrit int = 0
+//@   [C09] loop 1 invariant nCrit == 0
+//@   [C09] loop 2 invariant nCrit == 0
+//@   [C09] loop 3 invariant nCrit == 0
+//@   [C09] loop 4 invariant nCrit == 0
+//@   [C09] loop 5 invariant nCrit == 0
+//@   [C09] loop 6 invariant nCrit == 0
+//@   [C09] loop 7 invariant nCrit == 0
+//@   [C09] loop 8 invariant nCrit == len(criticalFailures)
+//@   [C09] loop 9 invariant nCrit == len(criticalFailures)
+//@   [C09] ensures nCrit > 0 ==> err != nil
+//@   [C09] ensures err != nil ==> nCrit > 0
 //@   [C08 C09] on call delete : assert argtype0 == "callable.CallsMap" && awaitedAt == #i + 1
 // C08 / C06 (each started call is collected exactly once, or cancelled at teardown): registering a started call for its
 // await moment never drops calls registered before - the per-moment map of pending calls is replaced only when there is
